@@ -38,7 +38,12 @@ impl<VM: VMBinding> SFT for LargeObjectSpace<VM> {
         self.get_name()
     }
     fn is_live(&self, object: ObjectReference) -> bool {
+        // The mark state does not flip in a nursery GC, so a young object that has not been traced
+        // still carries the mark it was allocated with; but it is about to be swept.  Tracing a
+        // young object clears its nursery bit, so in a nursery GC a young object is live only once
+        // it has lost that bit.
         self.test_mark_bit(object, self.mark_state)
+            && !(self.in_nursery_gc && self.is_in_nursery(object))
     }
     #[cfg(feature = "object_pinning")]
     fn pin_object(&self, _object: ObjectReference) -> bool {
@@ -331,6 +336,9 @@ impl<VM: VMBinding> LargeObjectSpace<VM> {
             self.sweep_large_pages(false);
             debug_assert!(self.treadmill.is_from_space_empty());
         }
+        // Outside a collection every object in the space is live, including the young objects
+        // allocated from now on (see `is_live`).
+        self.in_nursery_gc = false;
     }
 
     // Allow nested-if for this function to make it clear that test_and_mark() is only executed
